@@ -40,8 +40,8 @@ LEVEL_NOTE = ('Trusted: insertion-ordered dicts. Keyed sorts over sets whose '
               'the binding-namespace decision list is evaluated over the '
               'folded protocol type sets.')
 TECHNIQUE = ('set-typed iteration analysis + naming-expression agreement + '
-             'path counting + finite-domain evaluation of constant tables '
-             '(ast)')
+             'path counting + finite-domain evaluation of constant tables + '
+             'guard entailment (ast)')
 
 WSDL = 'spyne.interface.wsdl.wsdl11:Wsdl11'
 
